@@ -161,10 +161,22 @@ def writeElems : List Elem → Except WErr (List OutBuild)
       | .error x => .error x
       | .ok bs => .ok (b :: bs)
 
+/-- the first loop of `NinjaBuild.write`: `count_rule_references` of every element, in order.
+`_should_use_rspfile` raises when no rule was attached; for a response-file capable rule
+`NinjaRule.should_use_rspfile` already quotes the input and output names, so a newline surfaces here. -/
+def countRefs : List Elem → Option WErr
+  | [] => none
+  | e :: r =>
+    if e.rulename = phony then countRefs r
+    else match e.attached with
+      | none => some .unmappedRule
+      | some ru => if ru.rspable && hasNewline (e.ins ++ e.outs) then some .newline else countRefs r
+
 /-- `NinjaBuild.write` -/
 def write (st : State) : Except WErr Out :=
-  if st.elems.any (fun e => (usesRsp e).isNone) then .error .unmappedRule
-  else
+  match countRefs st.elems with
+  | some x => .error x
+  | none =>
     match writeElems st.elems with
     | .error x => .error x
     | .ok bs => .ok { rules := st.rules.flatMap (ruleBlocks st.elems), builds := bs }
